@@ -46,7 +46,9 @@ static std::string rest(const std::vector<std::string>& t, size_t from) {
 
 static PDU* parse_top(int dlt, const uint8_t* p, uint32_t n) {
     switch (dlt) {
-        case DLT_EN10MB: if (Internals::is_dot3(p, n)) return new Dot3(p, n); return new EthernetII(p, n);
+        // the rule the sniffer documents for Ethernet captures, written out here (not taken from the library): a type/length octet pair
+        // whose first octet is below 8 (a value under 0x0800) announces an 802.3 frame, anything else Ethernet II
+        case DLT_EN10MB: if (n >= 13 && p[12] < 8) return new Dot3(p, n); return new EthernetII(p, n);
         case DLT_NULL: return new Loopback(p, n);
         case DLT_LINUX_SLL: return new SLL(p, n);
         case DLT_PPI: return new PPI(p, n);
@@ -180,7 +182,7 @@ static void run(const Script& s) {
                 try {
                     pdu.reset(parse_top(dlt, p, n));
                 } catch (malformed_packet&) { }
-                printf("A %d\n", pdu ? 1 : 0);
+                if (pdu) printf("A 1 %d\n", (int)pdu->pdu_type()); else printf("A 0\n");
             } else if (t[0] == "bpf") {
                 int dlt = (int)num(t[1]);
                 std::string filter = rest(t, 2);
